@@ -373,6 +373,21 @@ def install(env):
             raise Unsupported("sorted of symbolic items")
         return it.native(sorted, items, reverse=reverse)
 
+    import itertools as _itertools
+
+    @stub(_itertools.groupby)
+    def _groupby(it, xs, key=None):
+        """itertools.groupby: maximal runs of ADJACENT items with equal keys (eagerly; forks on key equality)"""
+        items = list(it.iterate(xs))
+        out = []
+        for x in items:
+            k = it.call(key, [x], {}) if key is not None else x
+            if out and it.truth(ops.mk_bool(ops.sym_eq(out[-1][0], k))):
+                out[-1][1].append(x)
+            else:
+                out.append((k, [x]))
+        return out
+
     @stub(iter)
     def _iter(it, x):
         from .env import EagerGen
